@@ -20,16 +20,28 @@
 (*                                                                           *)
 (* CloseOn = "first" is the seeded mutation "MergeIterators closes the pipe  *)
 (* on the first source EOF".                                                 *)
+(*                                                                           *)
+(* Ann is the set of ANNOTATED operands: they deliver every item and finish  *)
+(* normally, but carry a recorded, non-fatal error (Iterator.AddError; the   *)
+(* output of a Map in ContinueOnError mode), so the src.Close() their        *)
+(* forwarder joins into what it reports to the error stack is non-nil:       *)
+(* `errs` says that the stack holds an error.  In the code the stack is only *)
+(* read by Close() of the merged iterator, so Ann changes nothing.           *)
+(* ErrCheck = TRUE is the mutation "the merged producer is wrapped in        *)
+(* WithErrorCheck(stack)": an advance refuses to run once the stack holds an *)
+(* error, and checks again after the receive, dropping the item in hand -    *)
+(* the merge ends when an annotated operand is exhausted (self-test of       *)
+(* Conservation / EofComplete for operands with a non-nil Close()).          *)
 (***************************************************************************)
 EXTENDS Integers, Sequences, FiniteSets, Bags, BagsExt, TLC
 
-CONSTANTS MaxN, S, CloseOn
+CONSTANTS MaxN, S, CloseOn, Ann, ErrCheck
 
 None == 0
 Fwd == 1..S
 
-VARIABLES n, src, fpc, fhold, wg, cpc, pipeClosed, upc, delivered, ueof, ictx, iclosed, done, stopped
-vars == <<n, src, fpc, fhold, wg, cpc, pipeClosed, upc, delivered, ueof, ictx, iclosed, done, stopped>>
+VARIABLES n, src, fpc, fhold, wg, cpc, pipeClosed, upc, delivered, ueof, ictx, iclosed, done, stopped, errs
+vars == <<n, src, fpc, fhold, wg, cpc, pipeClosed, upc, delivered, ueof, ictx, iclosed, done, stopped, errs>>
 
 RECURSIVE SeqBag(_)
 SeqBag(s) == IF s = <<>> THEN EmptyBag ELSE BagAdd(SeqBag(Tail(s)), Head(s))
@@ -46,6 +58,7 @@ Init == /\ n \in 0..MaxN /\ src = [f \in Fwd |-> Sel(Input, f)]
         /\ wg = 0 /\ cpc = "idle" /\ pipeClosed = FALSE
         /\ upc = "idle" /\ delivered = <<>> /\ ueof = FALSE
         /\ ictx = "none" /\ iclosed = FALSE /\ done = [c \in {"p", "i", "w"} |-> FALSE] /\ stopped = FALSE
+        /\ errs = FALSE
 
 CancelFrom(c) == [x \in {"p", "i", "w"} |->
                     IF (c = "p") \/ (c = "i" /\ x # "p") \/ (c = "w" /\ x = "w") THEN TRUE ELSE done[x]]
@@ -53,12 +66,19 @@ CancelFrom(c) == [x \in {"p", "i", "w"} |->
 (* ---------------------------------------------------------------- External *)
 Read == /\ upc = "idle"
         /\ IF iclosed \/ done["p"]
-             THEN ueof' = TRUE /\ UNCHANGED <<upc, ictx, fpc, wg, cpc>>
-             ELSE /\ upc' = "recv" /\ UNCHANGED ueof
+             THEN ueof' = TRUE /\ UNCHANGED <<upc, ictx, fpc, wg, cpc, iclosed, done>>
+             ELSE IF ErrCheck /\ errs
+             THEN \* WithErrorCheck: the producer is not run; ReadOne turns the error into io.EOF and closes the iterator
+                  /\ ueof' = TRUE /\ iclosed' = TRUE
+                  /\ IF ictx = "live" THEN done' = CancelFrom("i") /\ UNCHANGED ictx
+                     ELSE ictx' = "noop" /\ UNCHANGED done
+                  /\ UNCHANGED <<upc, fpc, wg, cpc>>
+             ELSE /\ UNCHANGED <<iclosed, done>>
+                  /\ /\ upc' = "recv" /\ UNCHANGED ueof
                   /\ IF ictx = "none"
                        THEN /\ ictx' = "live" /\ fpc' = [f \in Fwd |-> "read"] /\ wg' = S /\ cpc' = "wait"
                        ELSE UNCHANGED <<ictx, fpc, wg, cpc>>
-        /\ UNCHANGED <<n, src, fhold, pipeClosed, delivered, iclosed, done, stopped>>
+        /\ UNCHANGED <<n, src, fhold, pipeClosed, delivered, stopped, errs>>
 
 Close == /\ IF iclosed THEN UNCHANGED <<iclosed, ictx, done>>
             ELSE /\ iclosed' = TRUE
@@ -66,12 +86,12 @@ Close == /\ IF iclosed THEN UNCHANGED <<iclosed, ictx, done>>
                     ELSE IF ictx = "none" THEN ictx' = "noop" /\ UNCHANGED done
                     ELSE UNCHANGED <<ictx, done>>
          /\ stopped' = TRUE
-         /\ UNCHANGED <<n, src, fpc, fhold, wg, cpc, pipeClosed, upc, delivered, ueof>>
+         /\ UNCHANGED <<n, src, fpc, fhold, wg, cpc, pipeClosed, upc, delivered, ueof, errs>>
 
 Cancel == /\ ~done["p"]
           /\ done' = IF ictx = "live" THEN CancelFrom("p") ELSE [done EXCEPT !["p"] = TRUE]
           /\ stopped' = TRUE
-          /\ UNCHANGED <<n, src, fpc, fhold, wg, cpc, pipeClosed, upc, delivered, ueof, ictx, iclosed>>
+          /\ UNCHANGED <<n, src, fpc, fhold, wg, cpc, pipeClosed, upc, delivered, ueof, ictx, iclosed, errs>>
 
 External == Read \/ Close \/ Cancel
 
@@ -81,32 +101,38 @@ FRead(f) == /\ fpc[f] = "read"
                  THEN fpc' = [fpc EXCEPT ![f] = "exit"] /\ UNCHANGED <<src, fhold>>
                  ELSE /\ fpc' = [fpc EXCEPT ![f] = "send"] /\ fhold' = [fhold EXCEPT ![f] = Head(src[f])]
                       /\ src' = [src EXCEPT ![f] = Tail(@)]
-            /\ UNCHANGED <<n, wg, cpc, pipeClosed, upc, delivered, ueof, ictx, iclosed, done, stopped>>
+            /\ UNCHANGED <<n, wg, cpc, pipeClosed, upc, delivered, ueof, ictx, iclosed, done, stopped, errs>>
 
 Handoff(f) == /\ fpc[f] = "send" /\ upc = "recv" /\ ~pipeClosed
-              /\ delivered' = Append(delivered, fhold[f]) /\ fhold' = [fhold EXCEPT ![f] = None]
+              /\ fhold' = [fhold EXCEPT ![f] = None]
               /\ fpc' = [fpc EXCEPT ![f] = "read"] /\ upc' = "idle"
-              /\ UNCHANGED <<n, src, wg, cpc, pipeClosed, ueof, ictx, iclosed, done, stopped>>
+              /\ IF ErrCheck /\ errs
+                   THEN \* the second check of WithErrorCheck: the item just received is dropped, the iterator ends
+                        /\ ueof' = TRUE /\ iclosed' = TRUE /\ done' = CancelFrom("i") /\ UNCHANGED delivered
+                   ELSE delivered' = Append(delivered, fhold[f]) /\ UNCHANGED <<ueof, iclosed, done>>
+              /\ UNCHANGED <<n, src, wg, cpc, pipeClosed, ictx, stopped, errs>>
 
 FSendEnd(f) == /\ fpc[f] = "send" /\ (done["w"] \/ pipeClosed)
                /\ fhold' = [fhold EXCEPT ![f] = None] /\ fpc' = [fpc EXCEPT ![f] = "exit"]
-               /\ UNCHANGED <<n, src, wg, cpc, pipeClosed, upc, delivered, ueof, ictx, iclosed, done, stopped>>
+               /\ UNCHANGED <<n, src, wg, cpc, pipeClosed, upc, delivered, ueof, ictx, iclosed, done, stopped, errs>>
 
+\* the forwarder returns Join(src.Close(), err): Operation(eh) puts it on the error stack, then wg.Done
 FExit(f) == /\ fpc[f] = "exit" /\ wg' = wg - 1 /\ fpc' = [fpc EXCEPT ![f] = "done"]
+            /\ errs' = (errs \/ f \in Ann)
             /\ UNCHANGED <<n, src, fhold, cpc, pipeClosed, upc, delivered, ueof, ictx, iclosed, done, stopped>>
 
 CWait == /\ cpc = "wait"
          /\ (IF CloseOn = "first" THEN wg < S \/ S = 0 ELSE wg = 0) \/ done["i"]
          /\ cpc' = "cancel"
-         /\ UNCHANGED <<n, src, fpc, fhold, wg, pipeClosed, upc, delivered, ueof, ictx, iclosed, done, stopped>>
+         /\ UNCHANGED <<n, src, fpc, fhold, wg, pipeClosed, upc, delivered, ueof, ictx, iclosed, done, stopped, errs>>
 CCancel == /\ cpc = "cancel" /\ cpc' = "close" /\ done' = CancelFrom("w")
-           /\ UNCHANGED <<n, src, fpc, fhold, wg, pipeClosed, upc, delivered, ueof, ictx, iclosed, stopped>>
+           /\ UNCHANGED <<n, src, fpc, fhold, wg, pipeClosed, upc, delivered, ueof, ictx, iclosed, stopped, errs>>
 CClose == /\ cpc = "close" /\ cpc' = "done" /\ pipeClosed' = TRUE
-          /\ UNCHANGED <<n, src, fpc, fhold, wg, upc, delivered, ueof, ictx, iclosed, done, stopped>>
+          /\ UNCHANGED <<n, src, fpc, fhold, wg, upc, delivered, ueof, ictx, iclosed, done, stopped, errs>>
 
 URecvEnd == /\ upc = "recv" /\ (pipeClosed \/ done["i"])
             /\ upc' = "idle" /\ ueof' = TRUE /\ iclosed' = TRUE /\ done' = CancelFrom("i")
-            /\ UNCHANGED <<n, src, fpc, fhold, wg, cpc, pipeClosed, delivered, ictx, stopped>>
+            /\ UNCHANGED <<n, src, fpc, fhold, wg, cpc, pipeClosed, delivered, ictx, stopped, errs>>
 
 Internal == CWait \/ CCancel \/ CClose \/ URecvEnd \/ \E f \in Fwd : FRead(f) \/ Handoff(f) \/ FSendEnd(f) \/ FExit(f)
 Next == Internal \/ External
